@@ -55,7 +55,7 @@ def prepare_crate(crate, verif, work, repo):
     with open(lock_path, "w") as lk:
         fcntl.flock(lk, fcntl.LOCK_EX)
         os.makedirs(dst, exist_ok=True)
-        r = subprocess.run(["rsync", "-a", "--delete", "--exclude", "Cargo.lock", "--exclude", "rehost", "--exclude", "target",
+        r = subprocess.run(["rsync", "-a", "--delete", "--exclude", "Cargo.lock", "--exclude", "gen", "--exclude", "rehost", "--exclude", "target",
                             src + "/", dst + "/"], capture_output=True, text=True)
         if r.returncode != 0:
             raise GenError("rsync failed: " + r.stderr)
